@@ -35,7 +35,9 @@ func runDebounce(line string) *result {
 		return r
 	}
 	pool := workerpool.New("debounce", workerpool.WithWorkerCount(w))
-	pool.Start()
+	if !guarded(r, pool, "start", func() { pool.Start() }) {
+		return r
+	}
 	deb := pool.DebounceFunc()
 	var cmu, lmu sync.Mutex
 	var events []string
@@ -92,7 +94,9 @@ func runDebounce(line string) *result {
 
 		return r
 	}
-	pool.Shutdown()
+	if !guarded(r, pool, "shutdown", func() { pool.Shutdown() }) {
+		return r
+	}
 	if !within(bound, pool.ShutdownComplete.Wait) {
 		r.fail("termination", "ShutdownComplete.Wait did not return", classifyPool(pool, "complete"))
 	}
